@@ -82,6 +82,11 @@ PAYLOADS = {
     "uni": lambda i: ["é€", "😀 tab\there", "日本語", "ß" * 3, "a b", ""][i % 6] + "~%d" % i,
     "big": lambda i: ("0123456789abcdef" * 600)[: 3000 + 977 * (i % 5)] + "!%d" % i,
     "empty": lambda i: "",
+    # control characters: lone CR, CR before the line end (= CRLF on disk), NUL, VT/FF – bytes that a text-mode
+    # reader would translate or a C-string API would cut
+    "ctl": lambda i: ["a\rb\r", "x\x00y\r", "\r", "t\x0b\x0c\x00\x00end", "\r\r", "plain"][i % 6] + "~%d\r" % i,
+    # every character fits in latin-1 but the bytes 0x80-0xff are not valid UTF-8 on their own
+    "latin": lambda i: ["\xe9\xe8", "\xff\xa0", "\xdf" * 3, "\xc3\xa9", "a b", ""][i % 6] + "~%d" % i,
 }
 
 
@@ -373,13 +378,53 @@ def norm_faults(faults):
     return tuple(out)
 
 
-def execute(sc, faults=()):
+_CACHED = {}
+
+
+def _speedups():
+    """`logger.add()` builds an ExceptionFormatter, whose `_get_lib_dirs` asks `sysconfig.get_path` 36 times (9 ms per
+    add, a quarter of a run): the stdlib function is memoised for the process (pure for fixed arguments).  Nothing of
+    loguru is touched."""
+    import functools
+    import sysconfig
+    if "get_path" not in _CACHED:
+        _CACHED["get_path"] = sysconfig.get_path
+        orig = sysconfig.get_path
+
+        @functools.lru_cache(maxsize=None)
+        def _memo(*args):
+            return orig(*args)
+
+        def get_path(*args, **kwargs):
+            if kwargs:
+                return orig(*args, **kwargs)
+            try:
+                return _memo(*args)
+            except TypeError:
+                return orig(*args)
+
+        sysconfig.get_path = get_path
+
+
+def clear_files(root):
+    """empty a scratch tree but keep its directories (rmdir is the expensive call on the shared disk; the log
+    directory always exists before the sink is added, so a re-used empty tree is indistinguishable from a new one)"""
+    for d, _dirs, files in os.walk(root):
+        for f in files:
+            try:
+                os.remove(os.path.join(d, f))
+            except OSError:
+                pass
+
+
+def execute(sc, faults=(), reuse_root=None):
     from loguru._logger import Core, Logger
 
+    _speedups()
     faults = norm_faults(faults)
     fault_at = tuple(k for k, _e in faults)
     ex = Exec()
-    root = tempfile.mkdtemp(prefix="c08_")
+    root = reuse_root if reuse_root is not None else tempfile.mkdtemp(prefix="c08_")
     # directory and file names are part of the scenario: glob metacharacters are ordinary characters there
     logdir = os.path.join(root, *sc.get("dir", "logs").split("/"))
     # a second directory tree with files of the same relative names: what a relative path would resolve to
@@ -487,10 +532,10 @@ def execute(sc, faults=()):
     try:
         make_pre(sc, logdir)
         if sc.get("rel"):
-            os.makedirs(elsewhere)
+            os.makedirs(elsewhere, exist_ok=True)
             os.chdir(root)
             dd = os.path.join(elsewhere, os.path.relpath(logdir, root))
-            os.makedirs(dd)
+            os.makedirs(dd, exist_ok=True)
             for j, n in enumerate([("b", 0), ("A", ("b", 0)), ("R", 5, 1, ("b", 0))]):
                 if n[0] == "b" and sc["timed"]:
                     continue
@@ -568,8 +613,14 @@ def execute(sc, faults=()):
                         if kind == "xd":
                             os.remove(path)
                         else:
+                            # the replacement may have content of its own (op[2] foreign lines): an existing file
+                            # that nothing the sink does may truncate or overwrite
                             tmp = path + ".tmp-new"
-                            open(tmp, "wb").close()
+                            nforeign = op[2] if len(op) > 2 else 0
+                            ids = [PRE + 700 + 10 * idx + j for j in range(nforeign)]
+                            with open(tmp, "wb") as f:
+                                f.write("".join("P%d\n" % (i - PRE) for i in ids).encode(sc.get("encoding", "utf8")))
+                            pre_ids.update(ids)
                             os.replace(tmp, path)
             finally:
                 sys.stderr = saved_err
@@ -639,7 +690,10 @@ def execute(sc, faults=()):
             else:
                 os.environ["TZ"] = saved_tz
             time.tzset()
-        shutil.rmtree(root, ignore_errors=True)
+        if reuse_root is not None:
+            clear_files(root)
+        else:
+            shutil.rmtree(root, ignore_errors=True)
     ex.nprims = shim.k
     bits = "".join("1" if j in fault_at else "0" for j in range(max(list(fault_at) + [-1]) + 1)) or "-"
     pre = ";".join("%s=%s" % (n, pre_entry_enc(sc, n, k, ids)) for n, k, ids in sc.get("pre", [])) or "-"
@@ -821,6 +875,10 @@ def _curated():
     # watch: deleted and replaced externally
     out.append(base_sc(watch=True, comp="lzma", ops=[I(), W(), ["xd", 0], W(), W(1), ["xr", 0], W(), W(1), S()]))
     out.append(base_sc(watch=True, rot=False, ops=[W(), ["xr", 0], W(), ["xd", 0], W(), S()]))
+    # watch: the file is replaced by one that HAS content (another process's file): re-opening appends to it, nothing
+    # may truncate it (monitors only: the model's replacement file is empty)
+    out.append(base_sc(watch=True, rot=False, monitors_only=True, ops=[W(), ["xr", 0, 2], W(), W(), S()]))
+    out.append(base_sc(watch=True, comp="gz", monitors_only=True, ops=[I(), W(), ["xr", 0, 3], W(), W(1), W(), S()]))
     # rename target collisions: pre-existing files under the renamed names
     out.append(base_sc(pre=[["R_5_1_b_0", "f", [PRE + 4]], ["R_5_2_b_0", "f", [PRE + 5]], ["o_1", "f", [PRE + 6]]],
                        ret=["count", 3], ops=[W(), W(1), W(1), W(), S()]))
@@ -838,6 +896,41 @@ def chdir_scenarios(comps):
     for i, comp in enumerate(comps):
         out.append(base_sc(rot=(i % 2 == 1), rel=True, comp=comp,
                            ops=[I(), W(), W(1 if i % 2 == 1 else 0), ["cd"], W(), W(), S()]))
+    return out
+
+
+def subsets_of_counters(quick, rng, hi=6):
+    """subsets of the counters {1 (= name without counter), 2, …, hi}: all of them (thorough) or a fixed family
+    with holes at the start, in the middle and at the end plus a few random ones (quick)"""
+    import itertools
+    allsets = [set(c) for r in range(hi + 1) for c in itertools.combinations(range(1, hi + 1), r)]
+    if not quick:
+        return allsets
+    fixed = [{1, 3}, {1, 2, 4}, {1, 3, 5}, {2, 3}, set(range(1, hi + 1)), {1, 4, 5, 6}, {1, 2, 3, 5, 6}]
+    return fixed + [rng.choice(allsets) for _ in range(3)]
+
+
+def hole_scenarios(quick, rng, comps=(None, "gz", "tar", "zip")):
+    """pre-existing names with HOLES in the counter sequence, for the rotation rename (`app.<date>[.N].log`) and
+    for the archive collision rename (`app.<date>.<date'>[.N].log.<ext>`): whatever subset of the numbered names
+    exists, the content of every pre-existing file must still be there afterwards and names stay unique"""
+    out = []
+    k = 0
+    for comp in comps:
+        for sub in subsets_of_counters(quick, rng):
+            k += 1
+            if comp is None:
+                pre = [["R_5_%d_b_0" % c, "f", [PRE + 20 + c]] for c in sorted(sub)]
+            else:
+                if quick and k % 2:
+                    continue
+                pre = [["A_R_5_1_b_0", "a", [PRE + 1]]] + \
+                      [["A_R_6_%d_R_5_1_b_0" % c, "a", [PRE + 20 + c]] for c in sorted(sub)]
+            sc = base_sc(comp=comp, pre=pre, ops=[W(), W(1), W(), S()])
+            # every scenario fault-free; a few of them also under every single fault
+            if not (k % (9 if quick else 16) == 0):
+                sc["nofaults"] = True
+            out.append(sc)
     return out
 
 
@@ -937,6 +1030,176 @@ def nontrivial(ex):
     return False
 
 
+# ----------------------------------------------------------------------------- generate_rename_path (strings)
+RP_ROOTS = ["app", "a.b", "logs/app", "lo*gs/[w]/ap?p", "日志", "x" * 40, ".hidden", "a b", "app.2020", "r.", "/abs/dir.d/f",
+            "[x]/a[0-9]b", "a.b/c.d/e"]
+RP_EXTS = ["", ".log", ".log.gz", ".tar.gz", ".", ".l g", ".日"]
+
+
+def rename_case(rng):
+    """(root, ext, ctime, taken): the taken set is built around the candidate family – runs of counters, holes,
+    the digit boundary 9/10, and decoys that only look like candidates"""
+    root, ext = rng.choice(RP_ROOTS), rng.choice(RP_EXTS)
+    ct = rng.range(0, 2 * 10 ** 9) + rng.below(10 ** 6) / 10 ** 6
+    date = pydt.datetime.fromtimestamp(ct).strftime(DATE_FMT)
+
+    def cand(c):
+        return "%s.%s%s%s" % (root, date, "" if c == 1 else ".%d" % c, ext)
+
+    r = rng.below(100)
+    if r < 15:
+        counters = set()
+    elif r < 45:
+        counters = set(range(1, rng.range(1, 14) + 1))                      # a full run (crosses 9 -> 10)
+    elif r < 75:
+        hi = rng.range(2, 15)
+        counters = {c for c in range(1, hi + 1) if rng.chance(70)}          # holes
+    elif r < 98:
+        counters = set(range(2, rng.range(2, 12) + 1))                      # first name free, later ones taken
+    else:
+        counters = set(range(1, rng.range(97, 104)))                        # long chain (99 -> 100)
+    taken = [cand(c) for c in sorted(counters)]
+    decoys = [root + ext, "%s.%s.01%s" % (root, date, ext), "%s.%s.+3%s" % (root, date, ext), cand(3) + ".gz",
+              "%s.%s.%s" % (root, date, ext.lstrip(".")), "%s.%s.1%s" % (root, date, ext), "%s.%s.0%s" % (root, date, ext),
+              "%s.%sX%s" % (root, date, ext), cand(2).upper(), "%s.%s. 2%s" % (root, date, ext)]
+    for d in decoys:
+        if rng.chance(30) and d not in taken:
+            taken.append(d)
+    return {"root": root, "ext": ext, "ct": ct, "taken": rng.shuffle(taken)}
+
+
+def rename_oracle(case):
+    """the property itself: creation date, plus the least counter >= 2 if needed, never an existing name"""
+    date = pydt.datetime.fromtimestamp(case["ct"]).strftime(DATE_FMT)
+    taken = set(case["taken"])
+    c = 1
+    while True:
+        name = "%s.%s%s%s" % (case["root"], date, "" if c == 1 else ".%d" % c, case["ext"])
+        if name not in taken:
+            return name
+        c += 1
+
+
+def rename_impl(case, base=None):
+    """the real `generate_rename_path` over a REAL scratch directory that holds exactly `taken` (whatever the
+    implementation uses to look – os.path.exists, glob, listdir – sees the same directory); a probing loop that
+    does not end is cut by a probe budget"""
+    import loguru._file_sink as fsm
+    tmp = tempfile.mkdtemp(prefix="c08rp_")
+    budget = [len(case["taken"]) + 8]
+
+    class _Path:
+        def exists(self, p):
+            budget[0] -= 1
+            if budget[0] < 0:
+                raise RuntimeError("probe budget exhausted")
+            return os.path.exists(p)
+
+        def __getattr__(self, name):
+            return getattr(os.path, name)
+
+    class _Os:
+        path = _Path()
+
+        def __getattr__(self, name):
+            return getattr(os, name)
+
+    def real(p):
+        return os.path.join(tmp, p.lstrip("/"))
+
+    saved = fsm.__dict__.get("os")
+    try:
+        for t in case["taken"]:
+            os.makedirs(os.path.dirname(real(t)), exist_ok=True)
+            with open(real(t), "wb") as f:
+                f.write(b"taken\n")
+        os.makedirs(os.path.dirname(real(case["root"] + "x")), exist_ok=True)
+        fsm.os = _Os()
+        try:
+            got = fsm.generate_rename_path(real(case["root"]), case["ext"], case["ct"])
+        finally:
+            fsm.os = saved
+        if not isinstance(got, str) or not got.startswith(tmp + os.sep):
+            return ("ok", repr(got))
+        rel = got[len(tmp) + 1:]
+        return ("ok", ("/" + rel) if case["root"].startswith("/") else rel)
+    except RuntimeError as e:
+        return ("loop", str(e))
+    except Exception as e:  # noqa: an observation
+        return ("err", core.err_kind(e))
+    finally:
+        shutil.rmtree(tmp, ignore_errors=True)
+
+
+def rename_line(case):
+    date = pydt.datetime.fromtimestamp(case["ct"]).strftime(DATE_FMT)
+    return ("gen %s %s %s %s" % (core.enc(case["root"]), core.enc(date), core.enc(case["ext"]),
+                                " ".join(core.enc(t) for t in case["taken"]))).rstrip()
+
+
+def rename_judge(case, got, model=None):
+    """list of (kind, text); kind "oracle" = the property itself is violated (the name exists already, the loop
+    does not end, or the name is not root + … creation date … + ext), kind "model" = the implementation merely
+    differs from the Lean model's exact shape (root.date[.N]ext with the least free N)"""
+    out = []
+    want = rename_oracle(case)
+    date = pydt.datetime.fromtimestamp(case["ct"]).strftime(DATE_FMT)
+    head = "generate_rename_path(%r, %r, %r) with %d existing paths %r..." % (
+        case["root"], case["ext"], case["ct"], len(case["taken"]), sorted(case["taken"])[:4])
+    if got[0] == "loop":
+        out.append(("oracle", "rename_never_overwrites: %s gave no result within |existing|+8 probes (the counter loop "
+                    "does not find a free name); expected %r" % (head, want)))
+    elif got[0] != "ok":
+        out.append(("oracle", "rename_never_overwrites: %s raised %s; expected %r" % (head, got[1], want)))
+    elif got[1] in set(case["taken"]):
+        out.append(("oracle", "rename_never_overwrites: %s returned %r, an EXISTING path (the following os.rename "
+                    "overwrites it); expected %r" % (head, got[1], want)))
+    elif not (got[1].startswith(case["root"]) and got[1].endswith(case["ext"]) and date in got[1]
+              and got[1] != case["root"] + case["ext"]):
+        out.append(("oracle", "rename_never_overwrites: %s returned %r, which is not the old name with the creation "
+                    "date %s inserted before the extension" % (head, got[1], date)))
+    if model is not None and model != "bad-op" and got[0] == "ok":
+        m = core.dec(model[3:]) if model.startswith("ok ") else None
+        if m != got[1]:
+            out.append(("model", "%s: implementation %r, model (generate_rename_path_least_free) %r" % (head, got[1], m)))
+    return out
+
+
+def rename_path_stream(ctx, drv):
+    rng = ctx.rng.fork("rename_path")
+    fixed = [{"root": "app", "ext": ".log", "ct": 1600000000.5, "taken": []}]
+    d0 = pydt.datetime.fromtimestamp(1600000000.5).strftime(DATE_FMT)
+    fixed.append({"root": "app", "ext": ".log", "ct": 1600000000.5,
+                  "taken": ["app.%s.log" % d0, "app.%s.2.log" % d0, "app.%s.4.log" % d0]})
+    fixed.append({"root": "a", "ext": "", "ct": 1600000000.5, "taken": ["a.%s" % d0] + ["a.%s.%d" % (d0, c) for c in range(2, 11)]})
+    cases = fixed + [rename_case(rng) for _ in range(ctx.n(100, 6000))]
+    gots = [rename_impl(c) for c in cases]
+    try:
+        outs = drv.run([rename_line(c) for c in cases])
+    except core.DriverError as e:
+        ctx.broke("driver:" + drv.name + " (gen)", str(e))
+        outs = [None] * len(cases)
+    nbad = 0
+    for case, got, out in zip(cases, gots, outs):
+        ctx.case(("rename_path", case["root"], case["ext"], case["ct"], tuple(case["taken"])),
+                 nontrivial=bool(case["taken"]))
+        ctx.stat("rename_path_cases")
+        ctx.stat("rename_path_taken:%s" % ("0" if not case["taken"] else "1-9" if len(case["taken"]) < 10 else "10+"))
+        if out is not None:
+            ctx.traces_validated += 1
+        if out == "bad-op":
+            ctx.broke("driver:" + drv.name + " (gen)", "model rejected the line " + rename_line(case)[:200])
+        for kind, text in rename_judge(case, got, out):
+            nbad += 1
+            if nbad <= 3:
+                if kind == "model":
+                    # a different (still fresh) naming scheme is not a violation of the property by itself
+                    ctx.broke("correspondence FileSink.generateRenamePath", text)
+                else:
+                    ctx.violation(text, {"stream": "rename_path", "case": case}, kind="oracle")
+
+
+
 # ----------------------------------------------------------------------------- run
 def explore(ctx, scenarios, pairs, errno_sweep=1):
     """runs every scenario fault-free, then with every single fault – the errno of fault k rotates through
@@ -945,43 +1208,55 @@ def explore(ctx, scenarios, pairs, errno_sweep=1):
     execs = []
     errnos = ERRNOS if not ctx.quick else ERRNOS[:4]
     for si, sc in enumerate(scenarios):
-        ex0 = execute(sc)
-        execs.append((sc, (), ex0))
-        n = ex0.nprims
-        kinds = [t.split("/")[0] for rec in ex0.ops for t in rec["trace"]]
-        ctx.stat("scenarios")
-        ctx.stat("primitive_calls_fault_free", n)
-
-        def eno(k):
-            return ERRNOS[(k + si) % len(ERRNOS)]
-
-        if sc.get("rel"):
-            # relative path + chdir: fault-free only (after a fault the sink re-creates its file lazily, and a
-            # relative path then legitimately resolves against the new working directory)
-            continue
-        for k in range(n):
-            f = ((k, eno(k)),)
-            execs.append((sc, f, execute(sc, f)))
-        if errno_sweep and si % errno_sweep == 0:
-            first = {}
-            for k, kd in enumerate(kinds):
-                first.setdefault(kd, k)
-            for kd, k in sorted(first.items()):
-                for e in errnos:
-                    if e != eno(k):
-                        f = ((k, e),)
-                        execs.append((sc, f, execute(sc, f)))
-                        ctx.stat("errno_sweep_executions")
-        if pairs:
-            cap = pairs if isinstance(pairs, int) and not isinstance(pairs, bool) else None
-            # the second fault may hit a call that only exists after the first one (up to 3 extra calls)
-            todo = [(a, b) for a in range(n) for b in range(a + 1, n + 3)]
-            if cap is not None and len(todo) > cap:
-                todo = ctx.rng.fork("pairs%d" % si).shuffle(todo)[:cap]
-            for a, b in todo:
-                f = ((a, eno(a)), (b, eno(a + b)))
-                execs.append((sc, f, execute(sc, f)))
+        shared = tempfile.mkdtemp(prefix="c08_")
+        try:
+            _explore_one(ctx, si, sc, pairs, errno_sweep, errnos, execs, shared)
+        finally:
+            shutil.rmtree(shared, ignore_errors=True)
     return execs
+
+
+def _explore_one(ctx, si, sc, pairs, errno_sweep, errnos, execs, shared):
+    def execute(sc_, faults=()):     # every execution of this scenario re-uses one (emptied) scratch tree
+        return globals()["execute"](sc_, faults, reuse_root=shared)
+
+    ex0 = execute(sc)
+    execs.append((sc, (), ex0))
+    n = ex0.nprims
+    kinds = [t.split("/")[0] for rec in ex0.ops for t in rec["trace"]]
+    ctx.stat("scenarios")
+    ctx.stat("primitive_calls_fault_free", n)
+
+    def eno(k):
+        return ERRNOS[(k + si) % len(ERRNOS)]
+
+    if sc.get("rel") or sc.get("nofaults"):
+        # relative path + chdir: fault-free only (after a fault the sink re-creates its file lazily, and a
+        # relative path then legitimately resolves against the new working directory); `nofaults`: members of
+        # large families (name sets with holes, byte-content classes) of which only a sample runs under faults
+        return
+    for k in range(n):
+        f = ((k, eno(k)),)
+        execs.append((sc, f, execute(sc, f)))
+    if errno_sweep and si % errno_sweep == 0:
+        first = {}
+        for k, kd in enumerate(kinds):
+            first.setdefault(kd, k)
+        for kd, k in sorted(first.items()):
+            for e in errnos:
+                if e != eno(k):
+                    f = ((k, e),)
+                    execs.append((sc, f, execute(sc, f)))
+                    ctx.stat("errno_sweep_executions")
+    if pairs:
+        cap = pairs if isinstance(pairs, int) and not isinstance(pairs, bool) else None
+        # the second fault may hit a call that only exists after the first one (up to 3 extra calls)
+        todo = [(a, b) for a in range(n) for b in range(a + 1, n + 3)]
+        if cap is not None and len(todo) > cap:
+            todo = ctx.rng.fork("pairs%d" % si).shuffle(todo)[:cap]
+        for a, b in todo:
+            f = ((a, eno(a)), (b, eno(a + b)))
+            execs.append((sc, f, execute(sc, f)))
 
 
 def judge(ctx, execs, drv, prop):
@@ -1008,7 +1283,7 @@ def judge(ctx, execs, drv, prop):
         return 0
     ndiff = 0
     for (sc, faults, ex), out in zip(execs, outs):
-        if sc.get("real"):
+        if sc.get("real") or sc.get("monitors_only"):
             ctx.stat("executions_real_policies_monitors_only")
             continue
         ctx.traces_validated += 1
@@ -1050,11 +1325,13 @@ def run(ctx):
     execs += explore(ctx, [gen_scenario(rng) for _ in range(nrand)], pairs=(False if ctx.quick else 150),
                      errno_sweep=(0 if ctx.quick else 2))
     execs += explore(ctx, with_names(real_policy_scenarios(ctx.quick), shift=2), pairs=False, errno_sweep=0)
+    execs += explore(ctx, with_names(hole_scenarios(ctx.quick, ctx.rng.fork("holes")), shift=4), pairs=False, errno_sweep=0)
     ctx.exhaustive = False
     for sc, _f, ex in execs[:2]:
         ctx.sample({"scenario": sc, "line": ex.line})
     judge(ctx, execs, drv, PROP)
     close_fault_regression(ctx)
+    rename_path_stream(ctx, drv)
 
 
 def close_fault_regression(ctx):
@@ -1078,10 +1355,27 @@ def close_fault_regression(ctx):
 
 def replay(ctx, rep):
     r = rep["replay"]
+    if r.get("stream") == "rename_path":
+        case = r["case"]
+        got = rename_impl(case)
+        try:
+            out = core.Driver(DRIVER).run([rename_line(case)])[0]
+        except core.DriverError:
+            out = None
+        print("case:    ", core.json.dumps(case, ensure_ascii=False))
+        print("impl:    ", got)
+        print("expected:", rename_oracle(case))
+        print("model:   ", out)
+        found = rename_judge(case, got, out)
+        for kind, text in found:
+            print("%s: %s" % (kind.upper(), text))
+        bad = [k for k, _t in found if k == "oracle"]
+        print("REPRODUCED" if bad else "not reproduced")
+        return 1 if bad else 0
     sc, faults = r["scenario"], tuple(r.get("faults", []))
     ex = execute(sc, faults)
     try:
-        out = None if sc.get("real") else core.Driver(DRIVER).run([ex.line])[0]
+        out = None if (sc.get("real") or sc.get("monitors_only")) else core.Driver(DRIVER).run([ex.line])[0]
     except core.DriverError:
         out = None
     print("scenario:", core.json.dumps(sc))
